@@ -122,6 +122,9 @@ Definition cyl_on_edge (r : cyl_row) : bool :=
   let '(z0, rr, z) := cyl_scaled r in
   isclose rr f1 t_cyl_hull_r t_cyl_hull_a && isclose (fabs z) z0 t_cyl_base_r t_cyl_base_a.
 
+(* the mask of the J and M outputs: closed body minus the edge *)
+Definition cyl_inside (r : cyl_row) : bool := cyl_inside0 r && negb (cyl_on_edge r).
+
 Section CylCores.
 Variable tvcore : F -> F -> F -> cyl_row -> vec.   (* magnet_cylinder_diametral_Hfield(z0, r, z, phi - tetta) *)
 Variable axcore : F -> F -> F -> cyl_row -> vec.   (* magnet_cylinder_axial_Bfield(z0, r, z) *)
@@ -130,11 +133,11 @@ Definition bhjm_cylinder (mu0 : F) (f : fld) (r : cyl_row) : vec :=
   let '(z0, rr, z) := cyl_scaled r in
   let '(px, py, pz) := cy_pol r in
   let inside0 := cyl_inside0 r in
+  let not_on_edge := negb (cyl_on_edge r) in                 (* computed BEFORE the J / M exits (commit 41540a4) *)
   match f with
-  | FJ => vsel inside0 (cy_pol r)
-  | FM => vdivs (vsel inside0 (cy_pol r)) mu0
+  | FJ => vsel (inside0 && not_on_edge) (cy_pol r)
+  | FM => vdivs (vsel (inside0 && not_on_edge) (cy_pol r)) mu0
   | _ =>
-    let not_on_edge := negb (cyl_on_edge r) in
     let pol_tv := fneqb px f0 || fneqb py f0 in
     let pol_ax := fneqb pz f0 in
     let gen := negb (pol_is_null (cy_pol r)) && not_on_edge in
@@ -182,6 +185,8 @@ Definition seg_masks (r : seg_row) : bool * bool :=     (* (mask_not_on_surf, ma
 
 Definition seg_not_on_surf (r : seg_row) : bool := fst (seg_masks r).
 Definition seg_inside (r : seg_row) : bool := snd (seg_masks r).
+(* the mask of the J and M outputs: tolerance body minus its surface *)
+Definition seg_inside_J (r : seg_row) : bool := seg_inside r && seg_not_on_surf r.
 
 Section SegCores.
 Variable segcore : seg_row -> vec.      (* magnet_cylinder_segment_Hfield row, cylindrical components *)
@@ -192,8 +197,8 @@ Definition bhjm_seg_row (mu0 : F) (f : fld) (any_off : bool) (r : seg_row) : vec
   else
     let inside := seg_inside r in let off := seg_not_on_surf r in
     match f with
-    | FJ => vsel inside (cs_pol r)
-    | FM => vdivs (vsel inside (cs_pol r)) mu0
+    | FJ => vsel (inside && off) (cs_pol r)                      (* commit 77d60b2: zero on the surface too *)
+    | FM => vdivs (vsel (inside && off) (cs_pol r)) mu0
     | FH => vsel off (cyl_to_cart (cs_c r) (cs_s r) (segcore r))
     | FB => let h := vsel off (cyl_to_cart (cs_c r) (cs_s r) (segcore r)) in
             let b := vmuls h mu0 in
@@ -310,7 +315,7 @@ Definition bhjm_tetrahedron (mu0 : F) (io : inout) (f : fld) (r : tet_row) : vec
   | FH => let r' := chirality r in tri_sum mu0 FH (te_obs r') (te_pol r') (tet_faces r')
   | FB => let r' := chirality r in
           let b := tri_sum mu0 FB (te_obs r') (te_pol r') (tet_faces r') in
-          if tet_inside io r' then vadd b (te_pol r') else b        (* mask from the RE-ORDERED vertices *)
+          if tet_inside io r then vadd b (te_pol r') else b         (* commit 99f877e: mask taken BEFORE check_chirality *)
   end.
 
 (* ------------------------------------------------------------------ TriangularMesh
